@@ -190,6 +190,19 @@ def run(ctx):
         rng.shuffle(seqs)
         for comp in (1, rng.choice([2, 3, 5, 7, 19, 20])):
             cases.append(dict(n=len(seqs), ncpu=rng.choice([1, 2]), mode='default', seqs=list(seqs), comp=comp, mr=None, k=k, which=0, maxc=None))
+    # long sequences (full-length chains rather than CDR3s): bin counts beyond one byte - lengths on both sides of 127/128 and of 255/256,
+    # neighbours by one insertion; with compression >= 20 every residue falls into one bin, with compression 1 no bin is large
+    for t in range(4 if ctx.quick else 30):
+        L = rng.choice([126, 127, 127, 255]) if t % 2 == 0 else rng.randint(120, 135)
+        s1 = ''.join(rng.choice(gens.AA[:rng.choice([2, 20])]) for _ in range(L))
+        ins = lambda s: (lambda j: s[:j] + rng.choice(gens.AA) + s[j:])(rng.randint(0, len(s)))
+        sub = lambda s: (lambda j: s[:j] + rng.choice(gens.AA) + s[j + 1:])(rng.randrange(len(s)))
+        seqs = [s1, ins(s1), sub(s1), ins(ins(s1)), s1[1:]]
+        rng.shuffle(seqs)
+        ctx.count('long_sequences')
+        for comp in (1, 20, rng.choice([16, 25])):
+            cases.append(dict(n=len(seqs), ncpu=rng.choice([1, 2]), mode='default', seqs=list(seqs), comp=comp, mr=None, k=rng.choice([1, 2]),
+                              which=0, maxc=None))
     outs = ctx.oracle.run_parallel([_request(c) for c in cases])
     exact_same = 0
     for c, exp in zip(cases, outs):
